@@ -464,6 +464,25 @@ class _Idioms(ast.NodeTransformer):
             return ast.Dict(keys=[ast.Constant(k.arg) for k in n.keywords], values=[k.value for k in n.keywords])
         return n
 
+    def visit_JoinedStr(self, n: ast.JoinedStr):
+        self.generic_visit(n)
+        # f"{f'a{x}'}b" -> f"a{x}b" ; f"{'lit'}" -> "lit" ; adjacent literal pieces are merged
+        flat = []
+        for v in n.values:
+            if isinstance(v, ast.FormattedValue) and v.conversion == -1 and v.format_spec is None and isinstance(v.value, ast.JoinedStr):
+                flat.extend(v.value.values)
+            elif isinstance(v, ast.FormattedValue) and v.conversion == -1 and v.format_spec is None and isinstance(v.value, ast.Constant) and isinstance(v.value.value, str):
+                flat.append(ast.Constant(v.value.value))
+            else:
+                flat.append(v)
+        merged = []
+        for v in flat:
+            if isinstance(v, ast.Constant) and isinstance(v.value, str) and merged and isinstance(merged[-1], ast.Constant) and isinstance(merged[-1].value, str):
+                merged[-1] = ast.Constant(merged[-1].value + v.value)
+            else:
+                merged.append(v)
+        return ast.JoinedStr(values=merged)
+
     # ---- boolean contexts (tests): only truthiness matters there
     def _truth(self, e: ast.AST) -> ast.AST:
         "simplify an (already visited) expression whose value is only tested for truth"
